@@ -57,7 +57,7 @@ def _g(a, t):
         pol = not pol
     k = a[0]
     s = {'p_in': lambda: {'path-is-empty': 'path empty', 'starts-with-slash': 'path absolute'}.get(a[1], a[1]), 'has': lambda: 'follows authority', 'fsc': lambda: 'segment has ":"',
-         'empty': lambda: 'segment empty', 'p_ends': lambda: f'path ends with {a[1].decode()!r}', 'cmp': lambda: f'{a[2]!r} {a[1]} {a[3]!r}', 'opaque': lambda: a[1],
+         'empty': lambda: 'segment empty', 'p_ends': lambda: f'path ends with {a[1].decode()!r}', 'p_last_eq': lambda: f'last segment is {a[1].decode()!r}', 'cmp': lambda: f'{a[2]!r} {a[1]} {a[3]!r}', 'opaque': lambda: a[1],
          'byte_at': lambda: f'byte at {a[1]!r} is {chr(a[2])!r}'}.get(k, lambda: str(a)[:40])()
     return s if pol else f'not({s})'
 
@@ -85,17 +85,72 @@ SHAPES = {
 }
 
 
+def _case_language(p):
+    """the path texts on which a symbolic path of a handle operation runs: the intersection of its tests on the path text (the other tests —
+    on the enclosing buffer, on the backward search — are left out: an over-approximation)"""
+    from .. import closure, lang
+    from ..aut import NFA, determinize, intersect, difference
+    n = NFA()
+    q = n.new()
+    n.add(q, 0, 255, q)
+    L = determinize(n, q, [q], 255).minimize()
+    for atom, truth in getattr(p, 'entry_assume', p.assume):      # (a path through make_root restarts its assumptions on the rooted path)
+        pol = truth
+        while isinstance(atom, tuple) and atom and atom[0] == 'not':
+            atom, pol = atom[1], not pol
+        g = None
+        if atom[0] == 'p_in':
+            g = lang.predicate_dfa(atom[1], False)
+        elif atom[0] == 'p_ends':
+            g = closure.text_dfa(atom[1], 'suffix')
+        elif atom[0] == 'p_last_eq':
+            g = closure.text_dfa(atom[1], 'last-segment')
+        elif atom[0] == 'cmp' and atom[1] in ('Eq', 'Ne') and {repr(atom[2]), repr(atom[3])} == {'pstart', 'pend'}:
+            g = lang.predicate_dfa('is-empty', False)
+            pol = pol if atom[1] == 'Eq' else not pol
+        if g is not None:
+            L = intersect(L, g) if pol else difference(L, g)
+    return L
+
+
+def _pop_condition(desc):
+    """when the documented list operation `pop` takes each of its shapes (PathMutImpl::pop: "removes the last segment; on an empty relative
+    path or a path ending in `..` appends `..`; nothing on the empty absolute path")"""
+    from .. import closure, lang
+    from ..aut import intersect, difference
+    empty, absolute = lang.predicate_dfa('path-is-empty', False), lang.predicate_dfa('starts-with-slash', False)
+    dd = closure.text_dfa(b'..', 'last-segment')
+    if desc is None:
+        return intersect(empty, absolute), 'the path is "/"'
+    if desc.startswith('empty relative path'):
+        return difference(empty, absolute), 'the path is ""'
+    if desc.startswith(('path ending in ".."', 'the same, behind')):
+        return dd, 'the last segment is ".."'
+    return difference(difference(closure.text_dfa(b'', 'suffix'), empty), dd), 'the path is not empty and its last segment is not ".."'
+
+
 def list_shapes(run, P):
     """text-level list semantics: on every symbolic path, the splice a handle operation performs is one of the shapes of SHAPES"""
     from .. import closure, pathclosure
     for m, arg in (('push', ('arg', 'x')), ('pop', None), ('clear', None)):
         for sa in (False, True):
             for p in pathmut.run_method(P, pathmut.PRE + m, arg, standalone=sa):
-                if p.aborted or not p.splices:
+                if p.aborted:
                     continue
-                run.count('shape_paths')
                 guards = ' & '.join(_g(a, t) for a, t in p.assume if a[0] != 'nonneg')
                 key = f'shape|{m}|{"standalone" if sa else "inplace"}|{guards[:100]}'
+                if not p.splices:
+                    if m == 'pop':
+                        # pop leaves the text alone only on the empty absolute path
+                        from ..aut import included
+                        run.count('pop_case_checks')
+                        C, why = _pop_condition(None)
+                        w = included(_case_language(p), C)
+                        if w is not None:
+                            run.violation(f'case|{m}|{"standalone" if sa else "inplace"}|{guards[:100]}', f'{pathmut.PRE + m} [{guards}]: changes nothing although the path may be {bytes(w)!r} '
+                                          f'(pop leaves the text alone only when {why})')
+                    continue
+                run.count('shape_paths')
                 try:
                     if sa:
                         p.markers['pstart'] = 'p+'
@@ -112,6 +167,18 @@ def list_shapes(run, P):
                 except closure.Unhandled as e:
                     run.violation(key, f'{pathmut.PRE + m}: effect outside the modelled subset ({e}); failing closed')
                     continue
+                if m == 'pop' and len(p.splices) == 1:
+                    # … and each shape only in the case the list operation prescribes it for
+                    from ..aut import included
+                    for (a, b, c, d) in SHAPES[m]:
+                        if cL in a and cR in b and pcs == c:
+                            run.count('pop_case_checks')
+                            C, why = _pop_condition(d)
+                            w = included(_case_language(p), C)
+                            if w is not None:
+                                run.violation(f'case|{m}|{"standalone" if sa else "inplace"}|{guards[:100]}', f'{pathmut.PRE + m} ({"stand-alone" if sa else "inside a URI/IRI"}) [{guards}]: '
+                                              f'{d} — but on this path of the code the path text may be {bytes(w)!r}; that shape is the list operation only when {why}')
+                            break
                 if len(p.splices) != 1 or not any(cL in a and cR in b and pcs == c for (a, b, c, _) in SHAPES[m]):
                     run.violation(key, f'{pathmut.PRE + m} ({"stand-alone" if sa else "inside a URI/IRI"}) [{guards}]: replaces [{cL},{cR}) by {pcs or "nothing"} — not one of the shapes of {m} '
                                   f'({"; ".join(d for (_, _, _, d) in SHAPES[m])})')
@@ -159,6 +226,7 @@ def main(run):
     for msg in sorted(set(pathmut.POP_LOOP_ISSUES)):
         run.violation('pop-loop|start', f'PathMutImpl::pop: {msg} — the segment it removes need not be the last one')
     run.floor('shape_paths', 60, 'handle paths whose splice shape was classified')
+    run.floor('pop_case_checks', 20, 'paths of pop whose case (empty / ends in ".." / other) was compared with the shape taken')
     # the directory meaning of "." and "..": the dispatch of symbolic_push (Engine S over all segment strings) and the loop of symbolic_append
     from .. import symstep
     probs, sst = symstep.analyse_push(P)
